@@ -270,8 +270,7 @@ func VerifC12_KLayout() {
 	vAssert(ok, "re-laid-out source is accepted")
 	vAssert(treesEq(got, want), "the tree does not depend on layout")
 	gotF, okF := parseFormatting(sb.String())
-	gotT, okT := parseTolerant(sb.String())
-	vAssert(okF && okT, "the format-preserving and the fault-tolerant readers accept it too")
-	vAssert(treesEq(gotF, want) && treesEq(gotT, want), "and read the same tree in every layout")
+	vAssert(okF, "the format-preserving reader accepts it too")
+	vAssert(treesEq(gotF, want), "and reads the same tree in every layout (the fault-tolerant reader shares the strict reader's token source; KModes compares all three)")
 	vCover("end")
 }
